@@ -35,7 +35,7 @@ def rat(v):
     return [f.numerator, f.denominator]
 
 
-def mk(kind, q):
+def mk(kind, q, coord=3):
     """-> (operand object, the box behind it or None, holder fiber)"""
     v = val(q)
     if kind == "scalar":
@@ -43,7 +43,7 @@ def mk(kind, q):
     if kind == "box":
         b = Payload(v)
         return b, b, None
-    f = Fiber([3], [v])
+    f = Fiber([coord], [v])
     e = f[0]                                  # CoordPayload holding the fiber's own box
     return e, f.payloads[0], f
 
@@ -58,7 +58,8 @@ def execute(case):
            "res": {"kind": "none", "val": [0, 1]}, "same": 0, "boxval": [0, 1], "lafter": case["x"], "rafter": case["y"]}
     try:
         lo, lbox, lf = mk(case["lk"], case["x"])
-        ro, rbox, rf = mk(case["rk"], case["y"])
+        # the two elements of an element-element form sit at different coordinates in two cases out of three (operators speak about the values only)
+        ro, rbox, rf = mk(case["rk"], case["y"], coord=(3, 5, 0)[case["tid"] % 3])
         if op in BIN:
             r = BIN[op](lo, ro)
         else:
